@@ -16,6 +16,6 @@ for mp in sorted(glob.glob(str(V / "seeded/*/meta.json"))):
 table = "\n".join(rows)
 p = V / "DESIGN.md"
 s = p.read_text()
-s = re.sub(r"<!-- SEEDED_TABLE_BEGIN -->.*?<!-- SEEDED_TABLE_END -->", "<!-- SEEDED_TABLE_BEGIN -->\n" + table + "\n<!-- SEEDED_TABLE_END -->", s, flags=re.S)
+s = re.sub(r"<!-- SEEDED_TABLE_BEGIN -->.*?<!-- SEEDED_TABLE_END -->", lambda _m: "<!-- SEEDED_TABLE_BEGIN -->\n" + table + "\n<!-- SEEDED_TABLE_END -->", s, flags=re.S)
 p.write_text(s)
 print(len(rows) - 2, "rows")
